@@ -13,15 +13,33 @@ def to_smt2(ob) -> str:
 
 
 def _z3_check(text, timeout_ms, seed=0):
-    s = z3.Solver()
+    """z3 through its API, under two watchdogs: the solver's own (soft) timeout is not honoured inside some non-linear
+    procedures, so the context is interrupted a few seconds after the limit, and a query that survives even that is answered
+    `unknown` by ending the worker process (the pool is rebuilt by the caller)."""
+    import threading
+    ctx = z3.Context()
+    s = z3.Solver(ctx=ctx)
     s.set("timeout", timeout_ms)
     if seed:
         s.set("random_seed", seed)
     s.from_string(text)
     t0 = time.time()
-    r = s.check()
-    reason = s.reason_unknown() if r == z3.unknown else ""
-    return str(r), time.time() - t0, reason
+    soft = threading.Timer(timeout_ms / 1000.0 + 5.0, ctx.interrupt)
+    hard = threading.Timer(timeout_ms / 1000.0 + 45.0, lambda: os._exit(17))
+    soft.daemon = hard.daemon = True
+    soft.start()
+    hard.start()
+    try:
+        try:
+            r = s.check()
+            reason = s.reason_unknown() if r == z3.unknown else ""
+            r = str(r)
+        except z3.Z3Exception as ex:  # interrupted
+            r, reason = "unknown", f"interrupted: {ex}"
+    finally:
+        soft.cancel()
+        hard.cancel()
+    return r, time.time() - t0, reason
 
 
 def _cvc5_check(text, timeout_ms):
@@ -68,15 +86,28 @@ def discharge(obligations: dict, timeout_ms=10000, procs=None, use_cvc5=True, cr
     out = {}
     if not items:
         return out
-    if procs == 1 or len(items) < 3:
-        results = map(_work, items)
-    else:
-        ex = ProcessPoolExecutor(procs)
-        results = ex.map(_work, items, chunksize=1)
-    for key, r, t, backend, reason in results:
-        out[key] = {"status": r, "time": t, "backend": backend, "reason": reason}
-        if reason.startswith("cvc5:"):
-            out[key]["cvc5"] = reason[5:]
+    # always in worker processes (a query that has to be abandoned ends its worker, never the caller); a broken pool is
+    # rebuilt for the queries that have no answer yet, and a query that breaks the pool twice is answered `unknown`
+    todo = list(items)
+    strikes = {}
+    while todo:
+        ex = ProcessPoolExecutor(min(procs, max(1, len(todo))))
+        futs = {ex.submit(_work, it): it for it in todo}
+        todo = []
+        for f, it in futs.items():
+            try:
+                key, r, t, backend, reason = f.result()
+            except Exception as e:  # noqa  (BrokenProcessPool: some worker was ended by its watchdog)
+                strikes[it[0]] = strikes.get(it[0], 0) + 1
+                if strikes[it[0]] >= 2:
+                    key, r, t, backend, reason = it[0], "unknown", float(it[2]) / 1000.0, "z3", f"abandoned: {type(e).__name__}"
+                else:
+                    todo.append(it)
+                    continue
+            out[key] = {"status": r, "time": t, "backend": backend, "reason": reason}
+            if reason.startswith("cvc5:"):
+                out[key]["cvc5"] = reason[5:]
+        ex.shutdown(wait=False, cancel_futures=True)
     return out
 
 
@@ -94,11 +125,17 @@ def retry_unknown(obligations, res, timeout_ms, seeds=(0, 7, 42)):
         for sd in seeds:
             items.append((k, text, timeout_ms, sd))
     ex = ProcessPoolExecutor(min(8, len(items)))
-    for k, r, t, sd in ex.map(_retry_work, items, chunksize=1):
+    futs = [ex.submit(_retry_work, it) for it in items]
+    for f in futs:
+        try:
+            k, r, t, sd = f.result()
+        except Exception:  # noqa  (a retry that had to be abandoned ended its worker: the obligation stays unknown)
+            continue
         res[k]["time"] += t
         if r != "unknown" and res[k]["status"] == "unknown":
             res[k]["status"] = r
             res[k]["backend"] = f"z3(seed={sd},retry)"
+    ex.shutdown(wait=False, cancel_futures=True)
 
 
 def _retry_work(item):
